@@ -196,11 +196,20 @@ namespace nmtools::array
 
             auto out_size = nmtools::size(output);
             using axis_type = decltype(view.axis);
+            // the neutral element of the op (0 for add, 1 for multiply) seeds the accumulators
+            [[maybe_unused]] auto identity = [&]()->element_type{
+                using op_type = meta::remove_cvref_t<decltype(view.op)>;
+                if constexpr (meta::has_identity_v<op_type>) {
+                    return view.op.identity();
+                } else {
+                    return 0;
+                }
+            }();
             if (out_size == 1) {
                 // reduce all to single scalar
 
                 // vertical op
-                auto reg = op.set1(0);
+                auto reg = op.set1(identity);
                 for (size_t i=0; (i+N)<=size; i+=N) {
                     const auto operand = op.loadu(&inp_data_ptr[i]);
                     reg = op.eval(reg,operand);
@@ -232,14 +241,6 @@ namespace nmtools::array
                 auto out_data_ptr = nmtools::data(output);
                 using index::ReductionKind, index::SIMD;
                 const auto n_elem_pack = meta::as_type_v<N>;
-                auto identity = [&]()->element_type{
-                    using op_type = meta::remove_cvref_t<decltype(view.op)>;
-                    if constexpr (meta::has_identity_v<op_type>) {
-                        return view.op.identity();
-                    } else {
-                        return 0;
-                    }
-                }();
                 for (size_t i=0; i<out_size; i++) {
                     out_data_ptr[i] = identity;
                 }
